@@ -571,6 +571,15 @@ func c06Match(c *vrep.Ctx) {
 		}
 		c.Bound("layout", "every paragraph of the document on ONE line")
 	}
+	var prefixes []int
+	if c.Param("prefix", "") == "distinct" {
+		for _, b := range []int{1 << 12, 1 << 14, 1 << 16}[:c.Pick(2, 3)] {
+			for _, k := range []int{5, 20, 45} {
+				prefixes = append(prefixes, b-k)
+			}
+		}
+		c.Bound("distinct_prefix_words", fmt.Sprint(prefixes))
+	}
 	crlf := c.Param("eol", "lf") == "crlf"
 	if crlf {
 		c.Bound("line_ends", "CRLF in the text and in the edit")
@@ -584,6 +593,21 @@ func c06Match(c *vrep.Ctx) {
 	body := func(r *vx.Run) {
 		d := docs[r.Choose(len(docs), "doc")]
 		pre := vOOVBlock(2, 5, 0)
+		if len(prefixes) > 0 {
+			// a long run of pairwise different unrelated words first (lines of 9): the document starts
+			// a few words below a power of two of distinct words seen so far
+			n := prefixes[r.Choose(len(prefixes), "prefix words")]
+			var sb strings.Builder
+			for i := 0; i < n; i++ {
+				sb.WriteString(vDistinctOOV(i))
+				if i%9 == 8 || i == n-1 {
+					sb.WriteByte('\n')
+				} else {
+					sb.WriteByte(' ')
+				}
+			}
+			pre = sb.String()
+		}
 		base := pre + string(d.Bytes) + "\n" + vOOVBlock(2, 4, 30)
 		e := c06ChooseEdit(r, base, -1, -1, kinds, positions)
 		if r.Scout() || e.ID == "" {
